@@ -1,5 +1,15 @@
 package hopserver
 
+import (
+	"net"
+
+	"hop.computer/hop/authkeys"
+	"hop.computer/hop/certs"
+	"hop.computer/hop/config"
+	"hop.computer/hop/keys"
+	"hop.computer/hop/transport"
+)
+
 // C20 (consequence) — a server presents the first virtual host whose pattern
 // matches the requested name.
 
@@ -44,5 +54,60 @@ func VH_C20_vhosts_first_match() {
 		} else {
 			verifCover("later")
 		}
+	}
+}
+
+// ---- C10: the server-name lookup reachable from the network ----
+
+var c10Captured transport.ServerConfig
+
+func c10NewVirtualHosts(c *config.ServerConfig, k *keys.X25519KeyPair, cert *certs.Certificate) (VirtualHosts, error) {
+	// patterns of the configured host blocks: chosen by the harness
+	return c10Hosts, nil
+}
+
+var c10Hosts VirtualHosts
+
+func c10ListenPacket(network, address string) (net.PacketConn, error) { return &net.UDPConn{}, nil }
+
+func c10NewServer(conn transport.UDPLike, cfg transport.ServerConfig) (*transport.Server, error) {
+	c10Captured = cfg
+	return &transport.Server{}, nil
+}
+
+func c10NewHopServerExt(u *transport.Server, c *config.ServerConfig, ks *authkeys.SyncAuthKeySet) (*HopServer, error) {
+	return &HopServer{}, nil
+}
+
+// Whatever server name a client's ClientAck decrypts to - any label bytes, any
+// type byte - the certificate lookup installed by NewHopServer returns a
+// certificate or an error; it never panics (the lookup runs in the transport
+// server's only receive goroutine).
+//
+//verif:prop C10
+//verif:replay none
+//verif:stub hop.computer/hop/hopserver.NewVirtualHosts = c10NewVirtualHosts
+//verif:stub net.ListenPacket = c10ListenPacket
+//verif:stub hop.computer/hop/transport.NewServer = c10NewServer
+//verif:stub hop.computer/hop/hopserver.NewHopServerExt = c10NewHopServerExt
+//verif:bounds the GetCertificate callback built by NewHopServer, with 0..2 host blocks (patterns from {"*", "*.example.com", "a"}); requested name: label of 0..3 symbolic bytes, type byte over all 256 values
+//verif:cover matched;no-match
+func VH_C10_server_name_lookup_never_panics() {
+	c10Hosts = nil
+	pats := []string{"*", "*.example.com", "a"}
+	n := verifPick("host-blocks", 0, 1, 2)
+	for i := 0; i < n; i++ {
+		c10Hosts = append(c10Hosts, VirtualHost{Pattern: pats[verifPick("pattern", 0, 1, 2)]})
+	}
+	_, err := NewHopServer(&config.ServerConfig{ListenAddress: "localhost:0", InsecureSkipVerify: true})
+	verifAssert(err == nil && c10Captured.GetCertificate != nil, "C10: NewHopServer installs a certificate lookup")
+	ln := verifPick("label-len", 0, 1, 3)
+	name := certs.Name{Label: verifBytes("label", ln), Type: certs.IDType(verifU8("name-type"))}
+	c, err := c10Captured.GetCertificate(transport.ClientHandshakeInfo{ServerName: name})
+	if err == nil {
+		verifAssert(c != nil, "C10: a successful lookup yields a certificate")
+		verifCover("matched")
+	} else {
+		verifCover("no-match")
 	}
 }
